@@ -75,6 +75,8 @@ LibraryRpcs == {"GetBook", "CreateBook", "UpdateBook", "DeleteBook", "ListBooks"
    \cup (IF Has("m_unsafe") THEN {"CreateChannel"} ELSE {}) \cup (IF Has("h_nested_var") THEN {"RenameBook"} ELSE {})
    \cup (IF Has("m_dep_request") THEN {"CheckDep"} ELSE {}) \cup (IF Has("m_raw_operation") THEN {"StartRaw"} ELSE {})
    \cup (IF Has("f_map") /\ Has("s_flatten") THEN {"LabelBook"} ELSE {})
+   \* a second target file: one RPC takes a (flattened) parameter named like that file's module, another returns one of its types
+   \cup (IF Has("f_crossfile") THEN {"StampBook", "GetAuthor"} ELSE {})
 Paged == {"ListBooks"} \cup (IF Has("m_paged_map") THEN {"ListById"} ELSE {}) \cup (IF Has("m_paged_legacy") THEN {"ListOld"} ELSE {})
 Lro == (IF Has("m_lro") THEN {"ExportBooks"} ELSE {}) \cup (IF Has("m_lro_empty") THEN {"PurgeBooks"} ELSE {})
 ClientStreaming == (IF Has("m_cstream") THEN {"UploadBooks"} ELSE {}) \cup (IF Has("m_bidi") THEN {"ChatBooks"} ELSE {})
